@@ -138,7 +138,7 @@ PLAN["C16"] = other(
     "whole samples, exactly the addressed bytes returned / removed / inserted, every other byte unchanged and in "
     "order (quantified postconditions over a slice term); inserting and then deleting the same stretch is proved to "
     "restore the byte string whenever the insertion time is not exactly half way between two samples (there "
-    "round-half-even breaks the law: known finding KF08). Bounded: list-of-samples model for sequences of "
+    "round-half-even breaks the law: known finding KF08); duration * rate * width equals the byte count. Bounded: list-of-samples model for sequences of "
     "operations, conversions samples<->bytes, save/open, QueryWav.",
     "Every time-addressed Wav operation acts on whole samples at the nearest sample index and leaves everything else "
     "alone: proved per operation for all times and contents (rates/widths enumerated); byte<->sample conversion, "
@@ -190,7 +190,10 @@ PLAN["C13"] = other(
     "crop/insertSpace/editTimestamps on textgrids) the frame obligation 'no mutating construct is executed on the "
     "receiver or an argument' is discharged on every path, and for the mutators (insertEntry, deleteEntry, addTier, "
     "removeTier, renameTier, replaceTier) every raising path is proved to leave the object equal to its initial state "
-    "(the spec raises before changing anything). Bounded: before/after snapshots of every operation incl. save.",
+    "(the spec raises before changing anything). Textgrid.new() and TextgridTier.new() are proved to return an equal "
+    "object that shares nothing with the original; find, getNonEntries, timestamps, validate, dejitter, union, "
+    "difference, Textgrid.appendTextgrid / eraseRegion / validate carry the same frame obligation. Bounded: "
+    "before/after snapshots of every operation incl. save.",
     "Copy-returning operations never mutate and failed mutations change nothing: proved per operation under contract; "
     "snapshots of all operations (incl. save with a pre-existing file) on the stated bounded domain.",
     ["c13_no_mutation"])
